@@ -27,3 +27,9 @@ func VerifMinSeqNo(reps []VerifReplica) uint64 {
 }
 
 func VerifCheckpointID(vbID uint16, group string) []byte { return getCheckpointID(vbID, group) }
+
+// ---- couchbase heart-beat membership: explicit round control for the harness ----
+
+func VerifCBMonitor(m interface{ Close() })   { m.(*cbMembership).monitor() }
+func VerifCBHeartbeat(m interface{ Close() }) { m.(*cbMembership).heartbeat() }
+func VerifCBID(m interface{ Close() }) string { return string(m.(*cbMembership).id) }
